@@ -62,7 +62,7 @@ CROP_NOTE = ("modelled: canopy_cover.py, adjust_CCx.py, update_CCx_CDC.py (Crop/
              "biomass_accumulation.py, HIref_current_day.py, harvest_index.py, HIadj_*.py and the yield lines of run_single_timestep.py (Crop/Yield.v), kernels (Kernels.v)")
 
 reg(Prop("C05", "crop state stays inside its configured envelope",
-    [("canopy", 6000, 80000), ("roots", 6000, 80000), ("yield", 6000, 80000), ("kernels", 4000, 40000), ("dayc", 2500, 30000), ("runc", 48, 500)],
+    [("canopy", 6000, 80000), ("roots", 6000, 80000), ("yield", 6000, 80000), ("kernels", 4000, 40000), ("cropinit", 3000, 40000), ("dayc", 2500, 30000), ("runc", 48, 500)],
     trace_mon("C05", 70, 1200, strict=lambda r: r.random() < 0.6),
     [R_AX, CROP_NOTE],
     [EXACT, "crop_ok / rc_ok / hi_crop_ok parameter hypotheses (0 < CC0 <= CCx <= 1, CGC > 0, 0 < Zmin <= Zmax in whole centimetres, 0 < HIini < HI0, b_HI >= 1 ...), step_ok = CC0*exp(CGC*dt) <= CCx for one day's time increment; "
@@ -72,7 +72,7 @@ reg(Prop("C05", "crop state stays inside its configured envelope",
     "monitor: trajectories of get_crop_growth() against the season's crop parameters, restrictive-layer soils included"))
 
 reg(Prop("C06", "yields and seasonal totals agree with the daily tables",
-    [("yield", 8000, 80000), ("clock", 100, 1000), ("day", 3000, 40000), ("dayc", 2500, 30000), ("runc", 48, 500)],
+    [("yield", 8000, 80000), ("cropinit", 3000, 40000), ("clock", 100, 1000), ("day", 3000, 40000), ("dayc", 2500, 30000), ("runc", 48, 500)],
     trace_mon("C06", 70, 1200, method=lambda r: r.choice([0, 1, 2, 3, 4, 4, 5]), strict=lambda r: True),
     [R_AX, CROP_NOTE, "summary-row theorems on Clock.v are closed under the global context and hold for every physics; the plumbing of the row values is Day.v (L2 replay) when present"],
     [EXACT, "WPy <= 100, ET0 > 0, YldWC > 0 (catalogue_YldWC_refuted lists the 4 catalogue crops without YldWC)"],
@@ -241,7 +241,7 @@ def _c16_monitor(ctx):
 
 
 reg(Prop("C16", "every valid configuration runs to completion with finite outputs",
-    [("calendar", 4000, 40000), ("soilinit", 800, 8000), ("inputs", 1500, 20000), ("kernels", 3000, 30000), ("clock", 100, 1000)],
+    [("calendar", 4000, 40000), ("soilinit", 800, 8000), ("inputs", 1500, 20000), ("kernels", 3000, 30000), ("cropinit", 3000, 40000), ("clock", 100, 1000)],
     _c16_monitor,
     [R_AX, "FloatAxioms.* (specification of Coq's primitive floats) enter through the interval tactic in the texture-box lemmas only",
      "PARTIAL: proved = catalogue obligations over the regenerated crop table, exact classification of initialisation rejections (Init/Calendar.v), termination of run loop and deepening, definedness of every process model under well-formedness; "
